@@ -55,6 +55,8 @@ def gen_call(rng, thorough):
             else:
                 dims = "a b"
             lt = arr_type(dims)
+            if len(dims.split()) >= 2 and rng.chance(1, 4):
+                lt = gen_prog.nested(lt, rng.rng(1, len(dims.split()) - 1))
             bound |= {t for t in dims.split() if t in gen_dims.NAMES}
         elif r < 7:
             lt = {"t": "union", "ts": [arr_type("a 9"), arr_type("a b")]}  # first alternative fails
@@ -198,12 +200,28 @@ def same_name_cases():
     ]
 
 
+def nested_cases():
+    """nested annotations whose outer part names no axis: what the inner axes bound before a later axis failed is not in force"""
+    mk = lambda params, ret=None: {"op": "call", "kind": "new", "params": params, "ret": ret, "bindok": True, "notc": False, "body": [], "exit": "ret"}  # noqa: E731
+    n = lambda d, k, s: {"ty": gen_prog.nested(arr_type(d), k), "val": arr_val(s)}  # noqa: E731
+    a = lambda d, s: {"ty": arr_type(d), "val": arr_val(s)}  # noqa: E731
+    return [
+        mk([dict(name="x", **n("3 a a", 1, [3, 4, 5]))]),
+        mk([dict(name="w", **a("b", [7])), dict(name="x", **n("_ a a b", 1, [9, 4, 4, 8]))]),
+        mk([dict(name="x", **a("a", [2]))], n("2 c c", 1, [2, 5, 6])),
+        mk([dict(name="x", ty={"t": "union", "ts": [gen_prog.nested(arr_type("3 a a"), 1), arr_type("_ _ a")]}, val=arr_val([3, 4, 5])), dict(name="y", **a("a", [5]))]),
+    ]
+
+
 def run(tier, seed, out, drv, facts):
     rng = Rng(seed, "C13")
     thorough = tier == "thorough"
     for call in annotation_error_cases():
         for ck in ("typeguard", "beartype"):
             run_call(out, drv, facts, call, ck, False, rng, "misuse")
+    for call in nested_cases():
+        for rs in (False, True):
+            run_call(out, drv, facts, call, "typeguard", rs, rng, "nested")
     for call in same_name_cases():
         for rs in (False, True):
             run_call(out, drv, facts, call, "typeguard", rs, rng, "same-name")
